@@ -535,6 +535,29 @@ def sweep_cases(tier):
                                          'asgi_cl': bool((k // 2) % 2), 'cs': dlen + cs_add, 'pieces': [k or 1, len(body) + 1]}}
 
 
+def charset_cases(tier):
+    """Text decoding options, exhaustively: part Content-Type (absent / text/plain without and with a charset /
+    another type) x content (ASCII, valid UTF-8 that reads differently as Latin-1, a byte that is not UTF-8, empty)
+    x MultipartParseOptions.default_charset (unset, iso-8859-1, ascii, utf-16, an unknown name) x get_text / get_data,
+    with the text part first, last or alone in the form."""
+    ctypes = [None, ['text/plain', None], ['text/plain', 'utf-8'], ['text/plain', 'iso-8859-1'], ['text/plain', 'bogus-cs'],
+              ['application/octet-stream', None]]
+    contents = [b'abc', b'caf\xc3\xa9', b'\xe9', b'']
+    defaults = [None, 'iso-8859-1', 'ascii', 'utf-16', 'no-such-charset']
+    tr = {'short': [0], 'events': [7], 'preload': False, 'asgi_cl': True, 'cs': 9, 'pieces': [3, 11]}
+    for ct in ctypes:
+        for content in contents:
+            for dc in defaults:
+                for pat in (['text'], ['data']):
+                    for pos in (0, 1, 2):
+                        other = _p('o', b'\xff')
+                        me = _p('t', content, ctype=ct)
+                        parts = [[me], [me, other], [other, me]][pos]
+                        pats = [[pat], [pat, ['data']], [['text'], pat]][pos]
+                        yield {'form': {'boundary': 'bd', 'quote_boundary': False, 'preamble': None, 'tail': b'', 'parts': parts},
+                               'patterns': pats, 'transport': tr, 'default_charset': dc}
+
+
 def corrupt_enum_cases(tier):
     """All single-byte replacements / deletions / insertions at every position and every truncation of the
     fixed small forms (bodies <= 120 bytes)."""
